@@ -24,6 +24,13 @@ AddByte(t, at, v) == [op |-> "addbyte", of |-> t, at |-> at, v |-> v]     \* byt
 SliceDyn(t, from, lenfrom, base) == [op |-> "slicedyn", of |-> t, from |-> from, lenfrom |-> lenfrom, base |-> base]
 SliceBy(t, fromAt, lenAt) == [op |-> "sliceby", of |-> t, fromAt |-> fromAt, lenAt |-> lenAt]
 
+\* operators whose length is only known when the harness evaluates them (replies that depend on the request)
+Lookup(key, table, default) == [op |-> "lookup", key |-> key, table |-> table, default |-> default]
+DynLen16(t)  == [op |-> "len16", of |-> t]
+DynPadSeq(t) == [op |-> "padseq", of |-> t, block |-> 16]           \* 13.29 confidentiality trailer
+DynPadFF(t)  == [op |-> "padff", of |-> t, align |-> 4, last |-> 7]  \* 13.28.4 integrity pad, pad length, next header
+Cksum(t)     == [op |-> "cksum", of |-> t]                          \* 13.8 two's complement checksum
+
 DigestLen(a) == CASE a = "sha1" -> 20 [] a = "md5" -> 16 [] a = "sha256" -> 32
 \* lengths of named captures and shared definitions used by the scripts
 VarLen(n) == CASE n \in {"tag1", "tag2", "tag3", "mk"} -> 1 [] n \in {"sidM", "bseq"} -> 4
